@@ -102,7 +102,7 @@ class Prop:
             ev.append([t])
         via = rng.choice(["observe_on", "observe_on", "replay"])
         sc = {"via": via, "scheduler": rng.choice(["eventloop", "eventloop", "newthread"]), "events": ev,
-              "sched": th.gen_sched(rng, spurious_p=0.3)}
+              "sched": th.gen_sched(rng, spurious_p=0.3, sweep_p=0.02)}
         if via == "replay":
             sc["buffer_size"] = rng.choice([None, None, 1, 2])
             sc["subscribe_after"] = rng.choice([0, 0, 1, 2, 3])
@@ -127,6 +127,8 @@ class Prop:
         return [(e[0], e[1] if e[0] == "N" else None) for e in out]
 
     def execute(self, sc):
+        if sc["sched"].get("sweep") and "cps" not in sc:
+            return th.sweep(self.execute, sc)
         out = Outcome()
         holder = {}
 
